@@ -1337,7 +1337,7 @@ def run_atheris(spec, ctx):
         for fn in arts:
             with open(os.path.join(art, fn), "rb") as f:
                 data = f.read()
-            if fn.startswith("timeout-"):
+            if fn.startswith(("timeout-", "slow-unit-")):
                 ctx.inconclusive += 1   # wall clock: never a verdict
                 continue
             targets = _targets_for(data)
